@@ -319,3 +319,46 @@ func leafCatalogue() []Clause {
 		lf("X", "=", sv("x1")), lf("X", "<", sv("x2")), lf("X", "ilike", sv("X%")), lf("X", "isnotnull", nil), fn("X", "fn2", "prefixSS", col("X")),
 	}
 }
+
+// siblingAdds: several calls that each ADD a column to the same parent - itself the result of adding a
+// column, so that its header has room to spare - through every operation that adds columns (Copy,
+// WithRowNums, Apply, Eval, Rolling), also on a Slice / Filter / Sort of the parent. None of the results may
+// show up in another (persistence re-observes them all after every step).
+func (g *Gen) siblingAdds(f int) {
+	s := schemaOf(g.frame(f))
+	if s.err || len(s.names) < 2 {
+		return
+	}
+	par := g.do(Step{Op: "Copy", Recv: f, Dst: toBS("w0"), Src: toBS(s.names[0])})
+	if g.rng.Intn(2) == 0 {
+		par = g.do(Step{Op: "WithRowNums", Recv: par, Dst: toBS("w1")})
+	}
+	sp := schemaOf(g.frame(par))
+	if sp.err {
+		return
+	}
+	targets := []int{par, par, par}
+	if sp.n >= 2 {
+		targets = append(targets, g.do(Step{Op: "Slice", Recv: par, A: 1, B: sp.n}))
+		targets = append(targets, g.do(Step{Op: "Sort", Recv: par, Orders: []Order{{Col: toBS(sp.names[0]), Rev: true}}}))
+	}
+	for i := 0; i < 5; i++ {
+		t := targets[g.rng.Intn(len(targets))]
+		dst := "s" + itoa(i)
+		switch g.rng.Intn(5) {
+		case 0:
+			g.do(Step{Op: "Copy", Recv: t, Dst: toBS(dst), Src: toBS(g.oneOf(sp.names))})
+		case 1:
+			g.do(Step{Op: "WithRowNums", Recv: t, Dst: toBS(dst)})
+		case 2:
+			e := g.genExpr(sp, g.oneOf([]string{"int", "float", "bool", "string"}), 2)
+			g.do(Step{Op: "Eval", Recv: t, Dst: toBS(dst), Expr: &e, Ctx: userCtx})
+		case 3:
+			g.do(Step{Op: "Rolling", Recv: t, Dst: toBS(dst), Src: toBS(g.oneOf(sp.names))})
+		default:
+			ins := g.randomInstrs(sp, 1, false)
+			ins[0].Dst = toBS(dst)
+			g.do(Step{Op: "Apply", Recv: t, Instrs: ins})
+		}
+	}
+}
